@@ -160,19 +160,22 @@ def main():
     pts3 = ctx.rng("pts").normal(size=(3, 17)) * 2.0 * mesh.diameter()
     for fam_op, kind in (("single_layer", "DP0"), ("double_layer", "P1")):
         for wv in ([0.9] if ctx.quick or ctx.worker else [0.9, 1e-2, 7.0]):
-            cid = "potential:imag_k:%s:w=%g" % (fam_op, wv)
+          # "all quadrature orders": the default object and explicit parameter objects of other orders
+          for rorder in (None, 2, 7):
+            cid = "potential:imag_k:%s:w=%g" % (fam_op, wv) + ("" if rorder is None else ":r=%d" % rorder)
             if not ctx.want(cid):
                 continue
             with ctx.guard(cid, "imaginary_k_vs_modified:potential:%s" % fam_op):
                 sp = api.function_space(grid, *KA[kind])
                 gf = api.GridFunction(sp, coefficients=ctx.rng(cid).normal(size=sp.global_dof_count))
-                vm = np.asarray(O.potential(api, "modified_helmholtz", fam_op, sp, pts3, wv).evaluate(gf))
-                vh = np.asarray(O.potential(api, "helmholtz", fam_op, sp, pts3, 1j * wv).evaluate(gf))
+                par = None if rorder is None else O.params(api, rorder, 4)
+                vm = np.asarray(O.potential(api, "modified_helmholtz", fam_op, sp, pts3, wv, parameters=par).evaluate(gf))
+                vh = np.asarray(O.potential(api, "helmholtz", fam_op, sp, pts3, 1j * wv, parameters=par).evaluate(gf))
                 dev = O.rel(vh, vm)
                 eps = 1e-7
-                ve = np.asarray(O.potential(api, "helmholtz", fam_op, sp, pts3, eps + 1j * wv).evaluate(gf))
+                ve = np.asarray(O.potential(api, "helmholtz", fam_op, sp, pts3, eps + 1j * wv, parameters=par).evaluate(gf))
                 lim = O.frob(ve - vm) / max(O.frob(vm), 1e-300)
-                ctx.case(cid, {"potential": fam_op, "w": wv, "rel_dev": dev, "limit_dev": lim})
+                ctx.case(cid, {"potential": fam_op, "w": wv, "regular_order": rorder, "rel_dev": dev, "limit_dev": lim})
                 if dev > 1e-12:
                     ctx.violation("imaginary_k_vs_modified:potential:%s:value" % fam_op, "%s: %.3e" % (cid, dev), cid)
                 if lim > 100 * eps * mesh.diameter() * 5 + 1e-12:
